@@ -224,7 +224,17 @@ func (c *Ctx) finish(start time.Time) *Result {
 //	worker list   -prop C03 -tier quick
 //	worker run    -prop C03 -tier quick -unit <id> -seed N -budget 60s -out file
 //	worker replay -prop C03 -part <name> -file replay.json
+// DebugHook, when set, runs instead of the normal command line (development aid).
+var DebugHook func()
+
+// NewDebugCtx returns a throw-away context.
+func NewDebugCtx(prop string) *Ctx { return newCtx(prop, "debug", "quick", 1, 0) }
+
 func Main() {
+	if DebugHook != nil {
+		DebugHook()
+		return
+	}
 	if len(os.Args) < 2 {
 		fmt.Fprintln(os.Stderr, "usage: worker list|run|replay ...")
 		os.Exit(2)
